@@ -2350,7 +2350,12 @@ func (app *App) stopActiveNodeOptimization(oldMaster string, activeNodes []strin
 
 	var nodes []*mysql.Node
 	for _, hostname := range activeNodes {
-		nodes = append(nodes, app.cluster.Get(hostname))
+		node := app.cluster.Get(hostname)
+		if node == nil {
+			// a member of the published list that is not a registered host any more
+			continue
+		}
+		nodes = append(nodes, node)
 	}
 
 	return app.optController.DisableAll(
